@@ -53,6 +53,30 @@ class AppError(Exception):
     pass
 
 
+class _OddError(Exception):
+    def __str__(self):
+        return 'odd error \u2603 with non-ascii text'
+
+
+def make_exception(how, text):
+    """Application failures come in many shapes; the library must contain all of them."""
+    if how is True or how == 'app':
+        return AppError(text)
+    if how == 'keyerror_int':
+        return KeyError(404)
+    if how == 'oserror':
+        return FileNotFoundError(2, 'No such file or directory', '/nonexistent/' + text)
+    if how == 'value_dict':
+        return ValueError({'reason': text, 'code': 7})
+    if how == 'noargs':
+        return RuntimeError()
+    if how == 'odd':
+        return _OddError(b'\xff\xfe', 3.5)
+    if how == 'bytes_arg':
+        return LookupError(b'raw bytes \xff')
+    return AppError(text)
+
+
 # ------------------------------------------------------------------------------------------
 # subscribers
 # ------------------------------------------------------------------------------------------
@@ -407,9 +431,10 @@ def make_handler_class():
                     await asyncio.sleep(hd[1])
 
         def _bug(self, point):
-            if self.buggify.get(point):
+            how = self.buggify.get(point)
+            if how:
                 self.world.fault_fired('buggify_' + point)
-                raise AppError('buggify ' + point)
+                raise make_exception(how, 'buggify ' + point)
 
         async def on_setup(self, data_encoding, metadata_encoding, payload):
             self._rec('on_setup', payload, data_encoding=nb(data_encoding),
